@@ -160,7 +160,7 @@ const c01Rule = "case = (scenario, schedule): 2-3 producers x 1-3 batches on 1-2
 func TestVerifC01Sampled(t *testing.T) {
 	r := verifkit.Start(t, "C01", "sampled")
 	defer r.Finish(c01Rule, "fake S3: atomic puts, read-after-write; metadata store = real InMemoryStore behind a gate", "schedules inside one mutex-to-mutex gap are left to the Go runtime")
-	n := r.N(700, 12000)
+	n := r.N(700, 60000)
 	for ci := 0; ci < n; ci++ {
 		rng := r.Rand(ci)
 		cfg := c01Cfg(rng, 2+rng.Intn(2), 1+rng.Intn(3), int32(1+rng.Intn(2)))
@@ -201,7 +201,7 @@ func TestVerifC01Exhaustive(t *testing.T) {
 		return cfg
 	}
 	cfg := mk()
-	maxRuns := r.N(2500, 60000)
+	maxRuns := r.N(2500, 250000)
 	var prefix []int
 	runs := 0
 	done := false
